@@ -17,3 +17,14 @@
                 and to_node == write_direct' '                send_type <= TX_ROUTED
                 and to_node == write_direct'
 ./tools_mut.py C13 network/mixins.py 'if self.ret_sys_msg and msg_t > MAX_USR_DEF_MSG_TYPE or msg_t == NETWORK_ACK:' 'if self.ret_sys_msg and msg_t > MAX_USR_DEF_MSG_TYPE:'
+./tools_mut.py C13 network/mixins.py 'timeout = delta_time * 1000000 + time.monotonic_ns()' 'timeout = delta_time * 3000000 + time.monotonic_ns()'
+./tools_mut.py C13 network/mixins.py 'while not result and time.monotonic_ns() < timeout:' 'while not result:'
+./tools_mut.py C13 network/mixins.py '            if not result:
+                result = self._tx_standby(self.tx_timeout)' '            if not result:
+                result = self._tx_standby(self.tx_timeout) or self._tx_standby(self.tx_timeout)'
+./tools_mut.py C13 network/mixins.py '            if not result:
+                result = self._tx_standby(self.tx_timeout)' '            if not result:
+                result = self._tx_standby(self.route_timeout)'
+./tools_mut.py C13 network/mixins.py '            if not result:
+                result = self._tx_standby(self.tx_timeout)' '            if result is False:
+                result = self._tx_standby(self.tx_timeout)'
